@@ -294,12 +294,12 @@ func allocString(a *icsAlloc) string {
 // ---- generation
 
 type icsApprove struct {
-	M      string   `json:"m"` // approve | increaseAllowance | decreaseAllowance | revoke
-	To     string   `json:"to"`
-	Fams   []int    `json:"fams,omitempty"`
-	Amts   []string `json:"amts,omitempty"`
-	Allow  []int    `json:"allow,omitempty"` // receivers (users of chain 1); empty: anyone
-	Other  bool     `json:"other,omitempty"` // allocation for a channel that does not exist
+	M     string   `json:"m"` // approve | increaseAllowance | decreaseAllowance | revoke
+	To    string   `json:"to"`
+	Fams  []int    `json:"fams,omitempty"`
+	Amts  []string `json:"amts,omitempty"`
+	Allow []int    `json:"allow,omitempty"` // receivers (users of chain 1); empty: anyone
+	Other bool     `json:"other,omitempty"` // allocation for a channel that does not exist
 }
 
 func (m *c04mux) Gen(w *e.World, r *e.RNG) e.Step {
